@@ -352,8 +352,9 @@ def makeBlock [OfNat K 0] [Add K] (d bd : Dims) (F : Fan K) : Fan K :=
     let (i, j, k, l) := (Int.tdiv ra acpb, Int.tdiv a tcpb, Int.tdiv rb acpb, Int.tdiv b tcpb)
     B.put bd i j k l (B.at bd i j k l + F.at d ra a rb b)) {}
 
-/-- `if (ra != mra && rb != mrb)` (ML_norm.cxx:1562): are the two axially mirrored LORs added as well? -/
-def Dims.fourTerms (d : Dims) (ra rb : Int) : Bool := ra != d.R - 1 - ra && rb != d.R - 1 - rb
+/-- `if (ra != mra || rb != mrb)` (ML_norm.cxx:1562): are the two axially mirrored LORs added as well?
+(All four terms unless the LOR is its own axial mirror, i.e. both rings are the central ring.) -/
+def Dims.fourTerms (d : Dims) (ra rb : Int) : Bool := ra != d.R - 1 - ra || rb != d.R - 1 - rb
 
 /-- first part of `make_geo_data` (ML_norm.cxx:1547-1567): the mirror-summed copy `work` -/
 def geoMirrorSum [OfNat K 0] [Add K] (d : Dims) (F : Fan K) : Fan K :=
